@@ -3,10 +3,15 @@ module verifharness
 go 1.21
 
 require (
+	cosmossdk.io/log v1.4.1
+	cosmossdk.io/math v1.3.0
 	cosmossdk.io/store v1.1.1
 	github.com/bianjieai/tibc-go v0.0.0
 	github.com/cometbft/cometbft v0.38.12
+	github.com/cosmos/cosmos-db v1.0.2
 	github.com/cosmos/cosmos-sdk v0.50.10
+	mods.irisnet.org/modules/mt v0.0.0-20241202072418-ae2ffd0c842e
+	mods.irisnet.org/modules/nft v0.0.0-20241202072418-ae2ffd0c842e
 )
 
 require (
@@ -19,8 +24,6 @@ require (
 	cosmossdk.io/core v0.11.1 // indirect
 	cosmossdk.io/depinject v1.0.0 // indirect
 	cosmossdk.io/errors v1.0.1 // indirect
-	cosmossdk.io/log v1.4.1 // indirect
-	cosmossdk.io/math v1.3.0 // indirect
 	cosmossdk.io/x/evidence v0.1.1 // indirect
 	cosmossdk.io/x/feegrant v0.1.1 // indirect
 	cosmossdk.io/x/nft v0.1.1 // indirect
@@ -44,7 +47,6 @@ require (
 	github.com/cockroachdb/redact v1.1.5 // indirect
 	github.com/cometbft/cometbft-db v0.11.0 // indirect
 	github.com/cosmos/btcutil v1.0.5 // indirect
-	github.com/cosmos/cosmos-db v1.0.2 // indirect
 	github.com/cosmos/cosmos-proto v1.0.0-beta.5 // indirect
 	github.com/cosmos/go-bip39 v1.0.0 // indirect
 	github.com/cosmos/gogogateway v1.2.0 // indirect
@@ -181,8 +183,6 @@ require (
 	gopkg.in/yaml.v3 v3.0.1 // indirect
 	gotest.tools/v3 v3.5.1 // indirect
 	mods.irisnet.org/api v0.0.0-20241118093307-345265846e1d // indirect
-	mods.irisnet.org/modules/mt v0.0.0-20241202072418-ae2ffd0c842e // indirect
-	mods.irisnet.org/modules/nft v0.0.0-20241202072418-ae2ffd0c842e // indirect
 	nhooyr.io/websocket v1.8.6 // indirect
 	pgregory.net/rapid v1.1.0 // indirect
 	sigs.k8s.io/yaml v1.4.0 // indirect
